@@ -142,7 +142,7 @@ fn all_subsets_case(rng: &mut Rng, k: usize, r: usize, rate: RateKind, out: &mut
 /// configuration (often a larger one), maybe received a few shards of an
 /// abandoned round, and then got here by reset or by handing its working space
 /// to a new decoder.
-fn preused_decoder(
+pub fn preused_decoder(
     rng: &mut Rng,
     api: Api,
     rate: RateKind,
